@@ -2273,6 +2273,14 @@ func (s *swamp) Close() {
 	atomic.StoreInt32(&s.closing, 1)
 	s.closeMutex.Unlock()
 
+	s.closeClosing()
+
+}
+
+// closeClosing flushes and unmaps a swamp whose closing flag is already set (by Close, or by an auto-destroy
+// that found the swamp non-empty after draining the in-flight requests)
+func (s *swamp) closeClosing() {
+
 	// write all treasures to the chroniclerInterface that are waiting for the writer and don't send events to the hydra
 	// because we are closing the swamp and ask the chroniclerInterface to not send file pointers for new files, because,
 	// we are closing the swamp and we don't need to write the file pointers to the treasures
@@ -2327,6 +2335,17 @@ func (s *swamp) sendClosedEvent() {
 // !!!!!!!! IMPORTANT: YOU NEED TO RELEASE THE TRANSACTION BEFORE CALLING THIS FUNCTION, BECAUSE THIS FUNCTION
 // WAITS FOR ALL TRANSACTIONS TO BE RELEASED
 func (s *swamp) Destroy() {
+	s.destroy(false)
+}
+
+// destroyIfEmpty is the auto-destroy that follows the removal of the last treasure. Requests that were in
+// flight keep their vigil while Destroy drains them; if one of them inserted a treasure meanwhile, the swamp is
+// not empty any more and is closed (flushed) instead of deleted.
+func (s *swamp) destroyIfEmpty() {
+	s.destroy(true)
+}
+
+func (s *swamp) destroy(onlyIfEmpty bool) {
 
 	swampName := s.name.Get()
 	slog.Info("Destroy: starting", "swamp", swampName)
@@ -2380,6 +2399,12 @@ func (s *swamp) Destroy() {
 	s.Vigil.WaitForActiveVigilsClosed()
 	if verifhook.Enabled {
 		verifhook.Point("destroy.drained", swampName)
+	}
+
+	if onlyIfEmpty && s.beaconKey.Count() > 0 {
+		slog.Info("Destroy: the swamp is not empty any more after the drain, closing it instead", "swamp", swampName)
+		s.closeClosing()
+		return
 	}
 
 	slog.Debug("Destroy: vigils closed", "swamp", swampName)
@@ -2599,7 +2624,7 @@ func (s *swamp) DeleteTreasure(key string, shadowDelete bool) error {
 		}
 		// feloldjuk a vigiliát, mert nincs több treasure a swampban és a Destroy megkövetelei a Vigil feloldását
 		s.CeaseVigil()
-		s.Destroy()
+		s.destroyIfEmpty()
 		return nil
 	}
 
@@ -2640,7 +2665,7 @@ func (s *swamp) CloneAndDeleteExpiredTreasures(howMany int32) ([]treasure.Treasu
 		slog.Info("CloneAndDeleteExpiredTreasures: auto-destroying empty swamp",
 			"swamp", s.name.Get())
 		s.CeaseVigil()
-		s.Destroy()
+		s.destroyIfEmpty()
 	}
 
 	// return with the shifted treasures
@@ -2711,7 +2736,7 @@ func (s *swamp) CloneAndDeleteMatchingTreasures(beaconType BeaconType, order Bea
 	// Auto-destroy on empty, mirroring CloneAndDeleteExpiredTreasures.
 	if s.beaconKey.Count() == 0 {
 		s.CeaseVigil()
-		s.Destroy()
+		s.destroyIfEmpty()
 	}
 
 	return shiftedTreasures, capReached, nil
@@ -2778,7 +2803,7 @@ func (s *swamp) CloneAndDeleteTreasuresByKeys(keys []string) ([]treasure.Treasur
 	// destroy the swamp if there is no treasure in it
 	if s.beaconKey.Count() == 0 {
 		s.CeaseVigil()
-		s.Destroy()
+		s.destroyIfEmpty()
 	}
 
 	return result, nil
